@@ -27,6 +27,35 @@ class CtorSite:
         return f"<ctor {self.cls} in {self.fv.f.qual} line {self.call.lineno}>"
 
 
+_OBSERVER_ROOTS = ("logging", "logger", "log", "_logger", "_log", "print")
+
+
+def is_observer(st):
+    """an expression statement that only reports: `logging.debug(...)`, `logging.getLogger(..).info(...)`, `logger.warning(...)`,
+    `print(...)`"""
+    if not (isinstance(st, ast.Expr) and isinstance(st.value, ast.Call)):
+        return False
+    f = st.value.func
+    for _ in range(6):
+        if isinstance(f, ast.Attribute):
+            f = f.value
+        elif isinstance(f, ast.Call):
+            f = f.func
+        else:
+            break
+    if not (isinstance(f, ast.Name) and f.id in _OBSERVER_ROOTS):
+        return False
+    # its arguments only format values (no call that could do anything else)
+    call = st.value
+    for a in list(call.args) + [k.value for k in call.keywords]:
+        for n in ast.walk(a):
+            if isinstance(n, ast.Call) and not (isinstance(n.func, ast.Name) and n.func.id in ("str", "repr", "len", "type", "id")):
+                return False
+            if isinstance(n, (ast.NamedExpr, ast.Await, ast.Yield, ast.YieldFrom)):
+                return False
+    return True
+
+
 class FV:
     """A function together with its CFG, evaluator and convenience queries."""
 
@@ -41,12 +70,17 @@ class FV:
         self.ev.alias_mode = alias_mode
         self.cfg = self.ev.cfg
         self.ctx = self.ev.ctx
-        self.body = body_nodoc(self.f.node)
+        self._full_body = body_nodoc(self.f.node)
+        # what the rules look at: the statements without pure observers (logging / print calls) - an added log line is not a
+        # computation, an effect on the objects or a refusal, and no property speaks about it
+        self.body = [s_ for s_ in self._full_body if not is_observer(s_)]
         self._owner = None
 
     # ------------------------------------------------------------------ basics
     def stmts(self):
-        return list(walk_stmts(self.body))
+        if self.ev.exact:
+            return list(walk_stmts(self._full_body))        # the comparison of two forms sees everything
+        return [s_ for s_ in walk_stmts(self._full_body) if not is_observer(s_)]
 
     def returns(self):
         return [s for s in self.stmts() if isinstance(s, ast.Return)]
